@@ -241,22 +241,36 @@ pub(crate) mod alloc {
 
             // Compute beta and gamma challenges
             let beta = transcript.challenge_scalar(b"beta");
+            #[cfg(feature = "verif")]
+            crate::verif::record_challenge("beta", &beta);
             transcript.append_scalar(b"beta", &beta);
             let gamma = transcript.challenge_scalar(b"gamma");
+            #[cfg(feature = "verif")]
+            crate::verif::record_challenge("gamma", &gamma);
 
             // Add commitment to permutation polynomial to transcript
             transcript.append_commitment(b"z_comm", &self.z_comm);
 
             // Compute quotient challenge
             let alpha = transcript.challenge_scalar(b"alpha");
+            #[cfg(feature = "verif")]
+            crate::verif::record_challenge("alpha", &alpha);
             let range_sep_challenge =
                 transcript.challenge_scalar(b"range separation challenge");
+            #[cfg(feature = "verif")]
+            crate::verif::record_challenge("range", &range_sep_challenge);
             let logic_sep_challenge =
                 transcript.challenge_scalar(b"logic separation challenge");
+            #[cfg(feature = "verif")]
+            crate::verif::record_challenge("logic", &logic_sep_challenge);
             let fixed_base_sep_challenge =
                 transcript.challenge_scalar(b"fixed base separation challenge");
+            #[cfg(feature = "verif")]
+            crate::verif::record_challenge("fixed", &fixed_base_sep_challenge);
             let var_base_sep_challenge = transcript
                 .challenge_scalar(b"variable base separation challenge");
+            #[cfg(feature = "verif")]
+            crate::verif::record_challenge("var", &var_base_sep_challenge);
 
             // Add commitment to quotient polynomial to transcript
             transcript.append_commitment(b"t_low_comm", &self.t_low_comm);
@@ -266,6 +280,8 @@ pub(crate) mod alloc {
 
             // Compute evaluation challenge z
             let z_challenge = transcript.challenge_scalar(b"z_challenge");
+            #[cfg(feature = "verif")]
+            crate::verif::record_challenge("z", &z_challenge);
 
             // Add opening evaluations to transcript
             transcript.append_scalar(b"a_eval", &self.evaluations.a_eval);
@@ -299,7 +315,11 @@ pub(crate) mod alloc {
             transcript.append_scalar(b"q_r_eval", &self.evaluations.q_r_eval);
 
             let v_challenge = transcript.challenge_scalar(b"v_challenge");
+            #[cfg(feature = "verif")]
+            crate::verif::record_challenge("v", &v_challenge);
             let v_w_challenge = transcript.challenge_scalar(b"v_w_challenge");
+            #[cfg(feature = "verif")]
+            crate::verif::record_challenge("v_w", &v_w_challenge);
 
             // Add commitment to openings to transcript
             transcript
@@ -309,6 +329,8 @@ pub(crate) mod alloc {
 
             // Compute the challenge 'u'
             let u_challenge = transcript.challenge_scalar(b"u_challenge");
+            #[cfg(feature = "verif")]
+            crate::verif::record_challenge("u", &u_challenge);
 
             // Compute zero polynomial evaluated at challenge `z`
             let z_h_eval = domain.evaluate_vanishing_polynomial(&z_challenge);
@@ -544,22 +566,36 @@ pub(crate) mod alloc {
 
             // Compute beta and gamma challenges
             let beta = transcript.challenge_scalar(b"beta");
+            #[cfg(feature = "verif")]
+            crate::verif::record_challenge("beta", &beta);
             transcript.append_scalar(b"beta", &beta);
             let gamma = transcript.challenge_scalar(b"gamma");
+            #[cfg(feature = "verif")]
+            crate::verif::record_challenge("gamma", &gamma);
 
             // Add commitment to permutation polynomial to transcript
             transcript.append_commitment(b"z_comm", &self.z_comm);
 
             // Compute quotient challenge
             let alpha = transcript.challenge_scalar(b"alpha");
+            #[cfg(feature = "verif")]
+            crate::verif::record_challenge("alpha", &alpha);
             let range_sep_challenge =
                 transcript.challenge_scalar(b"range separation challenge");
+            #[cfg(feature = "verif")]
+            crate::verif::record_challenge("range", &range_sep_challenge);
             let logic_sep_challenge =
                 transcript.challenge_scalar(b"logic separation challenge");
+            #[cfg(feature = "verif")]
+            crate::verif::record_challenge("logic", &logic_sep_challenge);
             let fixed_base_sep_challenge =
                 transcript.challenge_scalar(b"fixed base separation challenge");
+            #[cfg(feature = "verif")]
+            crate::verif::record_challenge("fixed", &fixed_base_sep_challenge);
             let var_base_sep_challenge = transcript
                 .challenge_scalar(b"variable base separation challenge");
+            #[cfg(feature = "verif")]
+            crate::verif::record_challenge("var", &var_base_sep_challenge);
 
             // Add commitment to quotient polynomial to transcript
             transcript.append_commitment(b"t_low_comm", &self.t_low_comm);
@@ -569,6 +605,8 @@ pub(crate) mod alloc {
 
             // Compute evaluation challenge z
             let z_challenge = transcript.challenge_scalar(b"z_challenge");
+            #[cfg(feature = "verif")]
+            crate::verif::record_challenge("z", &z_challenge);
 
             // Add opening evaluations to transcript
             transcript.append_scalar(b"a_eval", &self.evaluations.a_eval);
@@ -602,7 +640,11 @@ pub(crate) mod alloc {
             transcript.append_scalar(b"q_r_eval", &self.evaluations.q_r_eval);
 
             let v_challenge = transcript.challenge_scalar(b"v_challenge");
+            #[cfg(feature = "verif")]
+            crate::verif::record_challenge("v", &v_challenge);
             let v_w_challenge = transcript.challenge_scalar(b"v_w_challenge");
+            #[cfg(feature = "verif")]
+            crate::verif::record_challenge("v_w", &v_w_challenge);
 
             // Add commitment to openings to transcript
             transcript
@@ -612,6 +654,8 @@ pub(crate) mod alloc {
 
             // Compute the challenge 'u'
             let u_challenge = transcript.challenge_scalar(b"u_challenge");
+            #[cfg(feature = "verif")]
+            crate::verif::record_challenge("u", &u_challenge);
 
             // Compute zero polynomial evaluated at challenge `z`
             let z_h_eval = domain.evaluate_vanishing_polynomial(&z_challenge);
